@@ -495,12 +495,28 @@ def determinism_selfcheck():
     a = run_case(c)
     b = run_case(c)
     if a[1] != b[1]:
-        raise common.HarnessError("C06 scenario is not deterministic")
+        # the driver is deterministic by construction (scheduler-decided
+        # quiescence, no timers): what differs is the library - two
+        # replications of one model with the same seeds
+        ra, rb = a[1]["reference"], b[1]["reference"]
+        keys = [k for k in ra if ra.get(k) != rb.get(k)]
+        return ("two-executions-of-the-same-replication-differ", keys,
+                trim(ra.get(keys[0]) if keys else None),
+                trim(rb.get(keys[0]) if keys else None))
+    return None
 
 
 def run(ctx):
     quick = ctx.tier == "quick"
-    determinism_selfcheck()
+    nd = determinism_selfcheck()
+    if nd is not None:
+        ctx.violation("C06:same-seeds:%s" % nd[0],
+                      "the same model with the same seeds on two brand-new "
+                      "simulators: %s differ: %s vs %s" % (nd[1], nd[2],
+                                                           nd[3]),
+                      {"case": ["float", 0, ["stop-at", 1], 1.0],
+                       "selfcheck": True})
+        return
     clocks = ("float", "duration", "int")
     variants = (0, 1) if quick else (0, 1, 2, 3)
     warms = (1.0, 0.0) if quick else (1.0, 0.0, 2.5)
@@ -574,6 +590,9 @@ def run(ctx):
 
 def replay(data):
     coopsched.install()
+    if data.get("selfcheck"):
+        nd = determinism_selfcheck()
+        return [nd] if nd else None
     c = data["case"]
     def tup(x):
         return tuple(tup(i) for i in x) if isinstance(x, list) else x
